@@ -508,6 +508,9 @@ double Integrate_MC_Vegas(std::function<double(std::vector<double>&, const doubl
 		}
 		for(j = 0; j < ndim; j++)
 		{
+			// The integrand vanished at every sample point: there is nothing to adapt the grid to along this axis.
+			if(!(dt[j] > 0.0))
+				continue;
 			rc = 0.0;
 			for(i = 0; i < nd; i++)
 			{
